@@ -146,6 +146,21 @@ def extract(repo):
     out["generic_bound"] = bound      # 0 = no bound in the code
     out["cast_guard"] = bool(re.search(r'if \(!may_be_type\)\s*\{\s*throw', pp)) and \
         bool(re.search(r'may_be_type\s*=\s*parser_->typedef_map_\.count\(id\)', pp))
+    # what decides `( identifier` = type: the declaration maps consulted, and how often may_be_type is assigned at all
+    # (declaration, the maps, the type-parameter loop) - a further assignment is a further heuristic
+    mm = re.search(r'may_be_type\s*=\s*((?:parser_->\w+\.count\(id\)\s*(?:\|\|)?\s*)+);', pp)
+    out["cast_guard_maps"] = sorted(re.findall(r'parser_->(\w+)\.count', mm.group(1))) if mm else []
+    out["cast_guard_assigns"] = len(re.findall(r'\bmay_be_type\s*=(?!=)', pp))
+    pbody = _bodies(pp, "PrimaryExpressionParser").get("parsePrimary", "")
+    # spelling heuristics of parsePrimary (sizeof operand, Name<T>): occurrences of std::isupper
+    out["primary_isupper"] = len(re.findall(r'std::isupper\s*\(', pbody))
+    mo = re.search(r'after cast type"\);\s*ASTNode \*expr = parser_->(parse\w+)\(\);', pbody)
+    out["cast_operand"] = mo.group(1) if mo else "?"
+    ms = re.search(r'bool is_cast = false;\s*if \(((?:[^{}])*?)\)\s*\{', pbody)
+    out["cast_starts"] = sorted(re.findall(r'TokenType::(TOK_\w+)', ms.group(1))) if ms else []
+    # parsePostfix: the tokens its loop continues on, and the tokens of the final ++/--
+    fb = funcs.get("parsePostfix", "")
+    out["postfix_loop"] = sorted(set(re.findall(r'(?:if|else if) \(parser_->check\(TokenType::(TOK_\w+)\)', fb)))
     out["recognised"] = True
     return out
 
@@ -185,6 +200,15 @@ def render(info):
         '(* tokens the look-ahead may examine (0 = unbounded) *)',
         'Definition ladder_generic_bound : nat := %d.' % info.get("generic_bound", 0),
         'Definition ladder_cast_guard : bool := %s.' % ("true" if info.get("cast_guard") else "false"),
+        "(* parsePrimary: the declaration maps that make `( identifier` a type, the number of assignments to may_be_type,",
+        "   the number of spelling tests (std::isupper), the callee for a cast operand, the tokens that may start a cast type;",
+        "   parsePostfix: the tokens it tests *)",
+        'Definition ladder_cast_guard_maps : list string := [%s].' % "; ".join('"%s"' % x for x in info.get("cast_guard_maps", [])),
+        'Definition ladder_cast_guard_assigns : nat := %d.' % info.get("cast_guard_assigns", 0),
+        'Definition ladder_primary_isupper : nat := %d.' % info.get("primary_isupper", 0),
+        'Definition ladder_cast_operand : string := "%s".' % info.get("cast_operand", "?"),
+        'Definition ladder_cast_starts : list string := [%s].' % "; ".join('"%s"' % x for x in info.get("cast_starts", [])),
+        'Definition ladder_postfix_tests : list string := [%s].' % "; ".join('"%s"' % x for x in info.get("postfix_loop", [])),
         "",
     ]
     return "\n".join(lines)
